@@ -56,9 +56,9 @@ inductive FinishShape (cfg : Cfg) (fill sym lw : Nat) (st : St) : Stop â†’ Out â
 /-- Rows of `result` are never empty (each ends with the wrap symbol). -/
 def ResultNonempty (st : St) : Prop := âˆ€ r âˆˆ st.result, r â‰  []
 
-theorem finish_shape {cfg : Cfg} {fill sym lw : Nat} {line : List Sec} {st : St} {stop : Stop} {o : Out}
+theorem finish_shape {fx : Fixes} {cfg : Cfg} {fill sym lw : Nat} {line : List Sec} {st : St} {stop : Stop} {o : Out}
     (hi : InvL cfg lw line st) (hne : ResultNonempty st)
-    (hd : step cfg sym lw st = .done stop)
+    (hd : step fx cfg sym lw st = .done stop)
     (hf : finish cfg fill sym lw st stop = .ok o) : FinishShape cfg fill sym lw st stop o := by
   cases stop with
   | stackEmpty =>
